@@ -211,9 +211,21 @@ def configw(ctx, P_):
                     pr = [e for e in s['assign'].get('p', []) if isinstance(e, dict) and 'f' in e]
                     if pr and pr[-1].get('of') in (CFG, BUF):
                         writes.append((fn_label(b), pr[-1]['f'], short_loc(s.get('span'))))
+                    # ... and a `&mut` (or raw mut) borrow of an option field is a write in waiting:
+                    # `mem::replace(&mut self.allow_slow_sequence_to_bytes, v)` to "save and restore" a flag around a
+                    # call leaves it changed when that call fails
+                    rv = s['rv']
+                    if rv.get('k') in ('ref', 'rawptr') and rv.get('mut'):
+                        pr = [e for e in (rv.get('place') or {}).get('p', []) if isinstance(e, dict) and 'f' in e]
+                        if pr and pr[-1].get('of') == CFG and pr[-1]['f'] not in ('buffers',):
+                            writes.append((fn_label(b), pr[-1]['f'], short_loc(s.get('span'))))
     ok = all(fl == 'ser::SerializerConfig::allow_slow_sequence_to_bytes' and fld == 'allow_slow_sequence_to_bytes' for fl, fld, _ in writes)
     ctx.ob('CONFIGW', 'field-writes', ok and len(writes) >= 1, None,
            'direct writes to fields of SerializerConfig / Buffers: %s (reviewed: only the public flag setter)' % sorted({(short_fn(a), b_) for a, b_, _ in writes}))
+    # ... and the library itself never calls the user's flag setter (it only ever builds its own throw-away configurations)
+    callers = sorted({short_fn(fn_label(b)) for b in f.body_list for bb, t in b.calls()
+                      if not b.is_cleanup(bb) and strip_generics(cname(t)).endswith('SerializerConfig::allow_slow_sequence_to_bytes')})
+    ctx.ob('CONFIGW', 'setter-not-called-internally', not callers, None, 'library functions calling SerializerConfig::allow_slow_sequence_to_bytes: %s' % (callers or 'none'))
     # fields of the configuration: closed
     a = f.adts.get(CFG)
     flds = sorted(x['name'] for x in a['variants'][0]['fields']) if a else None
